@@ -173,9 +173,9 @@ class Interp:
                         if pk is not None and t == 3 and pk.get('dup'):
                             owner = 'retransmit'
                         else:
-                            cand = [x for x in self.fifo if x.id not in self.refused]
-                            if cand and cand[0].kind == want:
-                                owner = cand[0]
+                            first = next((x for x in self.fifo if x.id not in self.refused), None)
+                            if first is not None and first.kind == want:
+                                owner = first
                                 self.fifo.remove(owner)
                             else:
                                 owner = 'unexpected'
